@@ -98,8 +98,10 @@ SCALARS = {"Leaf": [("n", "int"), ("s", "str"), ("o", "nfloat"), ("k", "int"), (
 
 def gen_atom(rng, var, cls, world):
     path, typ = rng.choice(SCALARS[cls])
-    if typ == "optpath" and not world["other_all"]:
-        path, typ = "extra", "int"
+    if typ == "optpath":
+        # the path crosses a reference that may be None: where it is, the in-memory evaluation of the atom raises and
+        # the case is skipped - unless an or_ is decided before the atom is reached
+        typ = "int"
     t = ["path", var, path]
     r = rng.random()
     if typ == "nfloat":
@@ -139,8 +141,8 @@ def gen(rng, tier, ctx):
     world = gen_world(rng)
     kind = rng.choices(["single", "single", "single", "join_rel", "join_scalar_diff", "join_scalar_same", "join_rel_same",
                         "membership_rel", "var_eq_rel", "reject", "join_in_or", "join_twice", "value_var", "set_of", "select_attr",
-                        "odd_collection"],
-                       [30, 20, 10, 8, 6, 4, 3, 3, 3, 6, 3, 3, 3, 2, 3, 3])[0]
+                        "odd_collection", "opt_in_or"],
+                       [30, 20, 10, 8, 6, 4, 3, 3, 3, 6, 3, 3, 3, 2, 3, 3, 4])[0]
     cls = rng.choice(["Leaf", "Holder", "SubHolder", "Tag", "Top", "Top"])
     q = {"kind": kind, "quant": "the" if rng.random() < 0.12 else "an", "root": cls, "vars": {"x": cls}}
     if kind == "single":
@@ -184,6 +186,12 @@ def gen(rng, tier, ctx):
     elif kind == "var_eq_rel":
         q["root"], q["vars"] = "Leaf", {"x": "Leaf", "y": "Holder"}
         q["cond"] = ["cmp", "==", ["path", "x", None], ["path", "y", "leaf"]]
+    elif kind == "opt_in_or":
+        # a path across an Optional reference as the right side of an or_ whose left side holds for every holder that
+        # has no such reference: the rows without the reference have to stay
+        q["root"], q["vars"], q["quant"] = "Holder", {"x": "Holder"}, "an"
+        q["cond"] = ["or", ["cmp", ">=", ["path", "x", "extra"], ["lit", 0]] if rng.random() < 0.3 else ["in", ["path", "x", "uid"], ["lit", "HOLDERS_WITHOUT_OTHER"]],
+                     ["cmp", rng.choice(CMP), ["path", "x", "other.n"], ["lit", rng.randint(0, 4)]]]
     elif kind == "set_of":
         # the selection is a set_of: there is no entity to fetch
         q["cond"] = gen_cond(rng, "x", cls, world, 1)
@@ -214,6 +222,10 @@ def witnesses():
              "tags": [{"leaf": 0, "w": 1}, {"leaf": 2, "w": 3}], "tops": [{"holder": 0, "rank": 1}, {"holder": 1, "rank": 2}], "other_all": True}
     world = dict(world, leaves=[dict(l, labels=lb, s=st) for l, lb, st in zip(world["leaves"], (["ab"], ["a", "b"], []), ("A_b", "axb", "ab"))])
     return {
+        "optional-path-inner-join": {"world": dict(world, holders=[dict(h, other=None if i == 0 else h["other"]) for i, h in enumerate(world["holders"])], other_all=False),
+                                     "query": {"kind": "opt_in_or", "quant": "an", "root": "Holder", "vars": {"x": "Holder"},
+                                               "cond": ["or", ["in", ["path", "x", "uid"], ["lit", "HOLDERS_WITHOUT_OTHER"]],
+                                                        ["cmp", ">=", ["path", "x", "other.n"], ["lit", 0]]]}},
         "substring-translated-to-like": {"world": world, "query": {
             "kind": "single", "quant": "an", "root": "Leaf", "vars": {"x": "Leaf"}, "cond": ["contains", ["path", "x", "s"], ["lit", "_"]]}},
         "json-collection-membership-as-substring": {"world": world, "query": {
@@ -262,6 +274,8 @@ def build_query(q, objs, sm):
         V["k"] = E.let(int, list(q["value_var"]), name="k")
 
     def bt(t):
+        if t[0] == "lit" and t[1] == "HOLDERS_WITHOUT_OTHER":
+            return [h.uid for h in objs["holders"] if h.other is None]
         if t[0] == "lit":
             if q.get("collection") in ("set", "tuple") and isinstance(t[1], list):
                 return set(t[1]) if q["collection"] == "set" else tuple(t[1])
